@@ -27,6 +27,8 @@ type Case struct {
 	// Exp: every ordinate and the threshold are multiplied by 2^Exp (exact) before
 	// they are handed to the library; which points may be dropped does not change.
 	Exp int `json:"exp,omitempty"`
+	// Div > 1: every x and y is divided by Div (in float64) first: decimal ordinates.
+	Div int `json:"div,omitempty"`
 	// Burst: after the line itself, its prefixes of these lengths are simplified one
 	// after another (hundreds of calls on lines of differing sizes within one case):
 	// whatever a call leaves behind must not show in a later one.
@@ -163,6 +165,11 @@ func genCase(t *rapid.T) Case {
 		}
 		c.Shape += "+offset"
 	}
+	if rapid.IntRange(0, 3).Draw(t, "div") == 0 {
+		c.Div = rapid.SampledFrom([]int{10, 10, 3, 7, 100, 1000}).Draw(t, "divby")
+		c.Shape += "+div"
+		c.Thr = model.Of(c.Thr.V() / float64(c.Div)) // the threshold keeps its proportion to the line
+	}
 	if rapid.IntRange(0, 5).Draw(t, "scaled") == 0 {
 		c.Exp = rapid.SampledFrom([]int{400, -400, 200, -200, 50, -50}).Draw(t, "exp")
 		if rapid.Bool().Draw(t, "expany") {
@@ -179,7 +186,7 @@ func genCase(t *rapid.T) Case {
 func flat(pts [][2]int64, stride int) []float64 {
 	out := make([]float64, 0, len(pts)*stride)
 	for i, p := range pts {
-		out = append(out, math.Ldexp(float64(p[0]), curExp), math.Ldexp(float64(p[1]), curExp))
+		out = append(out, math.Ldexp(val(p[0]), curExp), math.Ldexp(val(p[1]), curExp))
 		for d := 2; d < stride; d++ {
 			switch {
 			case stride%2 == 0:
@@ -194,11 +201,23 @@ func flat(pts [][2]int64, stride int) []float64 {
 	return out
 }
 
-func ep(p [2]int64) exact.P2 { return exact.Pt(float64(p[0]), float64(p[1])) }
+// val is a whole-number ordinate of the case as the float64 the library gets (before the
+// power-of-two scaling): itself, or divided by the case's Div (decimal ordinates).
+func val(v int64) float64 {
+	if curDiv > 1 {
+		return float64(v) / float64(curDiv)
+	}
+	return float64(v)
+}
+
+// curDiv is Case.Div of the case being evaluated.
+var curDiv int
+
+func ep(p [2]int64) exact.P2 { return exact.Pt(val(p[0]), val(p[1])) }
 
 func prop(c Case) error {
-	curExp = c.Exp
-	defer func() { curExp = 0 }()
+	curExp, curDiv = c.Exp, c.Div
+	defer func() { curExp, curDiv = 0, 0 }()
 	f := flat(c.Pts, c.Stride)
 	if err := simplify(c, f); err != nil {
 		return err
@@ -280,15 +299,17 @@ func simplify(c Case, f []float64) error {
 			return fmt.Errorf("indexes not strictly increasing: %v", idx)
 		}
 	}
-	mag := func(p [2]int64) float64 { return math.Max(math.Abs(float64(p[0])), math.Abs(float64(p[1]))) }
+	mag := func(p [2]int64) float64 { return math.Max(math.Abs(val(p[0])), math.Abs(val(p[1]))) }
 	for i := 1; i < len(idx); i++ {
 		a, b := ep(c.Pts[idx[i-1]]), ep(c.Pts[idx[i]])
 		for k := idx[i-1] + 1; k < idx[i]; k++ {
 			// allowed distance: thr plus the rounding of the library's own distance
 			// computation, which involves these three points only (not the largest ordinate
-			// anywhere on the line)
+			// anywhere on the line). The documented method places the foot of the perpendicular
+			// in absolute coordinates, so its error is a few units in the last place of the
+			// largest ordinate of the three: 2^-46 of it (128 ulps) is allowed.
 			scale := math.Max(mag(c.Pts[k]), math.Max(mag(c.Pts[idx[i-1]]), mag(c.Pts[idx[i]])))
-			lim := exact.Add(exact.Mul(exact.R(thr), exact.Add(big.NewRat(1, 1), big.NewRat(1, 1<<30))), exact.Mul(exact.R(scale), big.NewRat(1, 1<<40)))
+			lim := exact.Add(exact.Mul(exact.R(thr), exact.Add(big.NewRat(1, 1), big.NewRat(1, 1<<30))), exact.Mul(exact.R(scale), big.NewRat(1, 1<<46)))
 			lim2 := exact.Mul(lim, lim)
 			d2 := exact.PointSegDist2(ep(c.Pts[k]), a, b)
 			if thr == 0 {
@@ -300,8 +321,11 @@ func simplify(c Case, f []float64) error {
 			if d2.Cmp(lim2) > 0 {
 				return fmt.Errorf("point %d %v was dropped but is %.6g away from the segment joining retained points %d %v and %d %v (threshold %v)", k, c.Pts[k], math.Sqrt(exact.Float(d2)), idx[i-1], c.Pts[idx[i-1]], idx[i], c.Pts[idx[i]], thr)
 			}
-			if thr > 0 {
-				ev.Default.MaxOf("dropped_dist_over_thr", math.Sqrt(exact.Float(d2))/thr)
+			if thr > 0 && scale > 0 {
+				// how much of the rounding allowance a dropped point used (0 = within thr itself)
+				if over := math.Sqrt(exact.Float(d2)) - thr; over > 0 {
+					ev.Default.MaxOf("rounding_allowance_used", over/(scale/(1<<46)))
+				}
 			}
 		}
 	}
@@ -339,6 +363,8 @@ func classify(c Case) ([]string, bool) {
 	n := len(c.Pts)
 	kept := -1
 	_ = run.Safe(func() error {
+		curDiv = c.Div
+		defer func() { curDiv = 0 }()
 		kept = len(xy.SimplifyFlatCoords(flat(c.Pts, c.Stride), c.Thr.V(), c.Stride))
 		return nil
 	})
